@@ -225,11 +225,11 @@ fn sweep_items(_tier: Tier) -> Box<dyn Iterator<Item = Case>> {
 }
 
 fn random_strategy(_tier: Tier) -> BoxedStrategy<Case> {
-    let hexchar = prop_oneof![8 => prop::sample::select(b"0123456789abcdefABCDEF".to_vec()), 1 => any::<u8>()];
+    let hexchar = prop_oneof![8 => crate::gen::select(b"0123456789abcdefABCDEF".to_vec()), 1 => any::<u8>()];
     prop_oneof![
         3 => any::<[u8; 32]>().prop_map(|a| Case::Value(a.to_vec())),
         3 => prop::collection::vec(hexchar.clone(), 64..=64).prop_map(Case::HexInput),
-        2 => prop::collection::vec(prop::sample::select(b"0123456789abcdefABCDEF".to_vec()), 0..=130).prop_map(Case::HexInput),
+        2 => prop::collection::vec(crate::gen::select(b"0123456789abcdefABCDEF".to_vec()), 0..=130).prop_map(Case::HexInput),
         1 => prop::collection::vec(any::<u8>(), 0..=130).prop_map(Case::HexInput),
         1 => "\\PC{0,70}".prop_map(|s| Case::HexInput(s.into_bytes())),
         2 => prop::collection::vec(any::<u8>(), 0..=100).prop_map(Case::Slice),
